@@ -249,21 +249,6 @@ theorem format_generic (spec : Str) (dt : Dt) (h0 : spec ≠ fastPathSpec)
   rw [build_render _ (scan_pieces_clean spec h2)]
   rfl
 
-theorem endsWith_append_self (b suf : Str) : endsWith (b ++ suf) suf = true := by
-  unfold endsWith
-  rw [List.isSuffixOf_iff_suffix]
-  exact List.suffix_append b suf
-
-theorem cut_utc_suffix (b : Str) : (b ++ utcSuffix).take ((b ++ utcSuffix).length - 4) = b := by
-  have : utcSuffix.length = 4 := by decide
-  simp [this]
-
-theorem suffixed_ne_fast (b : Str) : b ++ utcSuffix ≠ fastPathSpec := by
-  intro h
-  have h1 := endsWith_append_self b utcSuffix
-  rw [h] at h1
-  revert h1; decide
-
 /-- `!UTC`: exactly the four characters of the suffix are removed (whatever text precedes them is kept and rendered
 verbatim by `format_generic`'s reading), and the body is rendered at the fields of `toUtc dt` – the same instant at
 offset 0 (`toUtc_same_instant`) – instead of the instant's own fields. -/
@@ -296,6 +281,129 @@ theorem utc_suffix_converts (body : Str) (dt : Dt) (h1 : endsWith body utcSuffix
     rw [default_fast_path_eq_generic, build_render _ (scan_pieces_clean _ h2)]
     rfl
   · rw [format_generic body (toUtc dt) h0 h1 h2 h3 h4]
+
+/-- `!UTC` changes the representation, not the instant: the converted record has the same epoch microseconds (so the
+tokens `x` and `X` print the same with and without the suffix), offset 0 (so `Z` prints `+00:00`, `ZZ` `+0000`), a
+calendar month and clock fields in range – for EVERY aware instant (calendar round trip for every day number) -/
+theorem utc_conversion_same_instant (t t' : Tm) (dt : Dt) :
+    timestampMicroseconds (toUtc dt) = timestampMicroseconds dt ∧
+    k_x t (toUtc dt) = k_x t' dt ∧ k_X t (toUtc dt) = k_X t' dt ∧
+    k_Z t (toUtc dt) = "+00:00".toList ∧ k_ZZ t (toUtc dt) = "+0000".toList ∧
+    (1 ≤ (toUtc dt).month ∧ (toUtc dt).month ≤ 12) ∧ (0 ≤ (toUtc dt).hour ∧ (toUtc dt).hour < 24) ∧
+    (0 ≤ (toUtc dt).minute ∧ (toUtc dt).minute < 60) ∧ (0 ≤ (toUtc dt).second ∧ (toUtc dt).second < 60) ∧
+    (0 ≤ (toUtc dt).microsecond ∧ (toUtc dt).microsecond < 1000000) := by
+  obtain ⟨h1, h2, h3, h4, h5, h6⟩ := toUtc_same_instant dt
+  have hz : ∀ sep, formatTimezone (toUtc dt) sep = "+00".toList ++ sep ++ "00".toList := by
+    intro sep
+    unfold formatTimezone
+    rw [h2]
+    have hf : fmtD0 2 0 = ['0', '0'] := by decide
+    simp [hf]
+  refine ⟨h1, ?_, ?_, ?_, ?_, toUtc_month_range dt, h3, h4, h5, h6⟩
+  · simp only [k_x, h1]
+  · simp only [k_X, h1]
+  · rw [(token_Z_is_formatTimezone t (toUtc dt)).1, hz]; rfl
+  · rw [(token_Z_is_formatTimezone t (toUtc dt)).2, hz]; rfl
+
+/-! ### Round 5: what is rejected; bracket escapes -/
+
+theorem fast_path_ok (dt : Dt) : ∃ s, formatDt fastPathSpec dt = .ok (.text s) := by
+  rw [default_fast_path_eq_generic, build_render _ (scan_pieces_clean _ (by decide))]
+  exact ⟨_, rfl⟩
+
+/-- REJECTION is exactly "more than six consecutive `S`": `format` raises iff the spec is not the default format, is
+not delegated to strftime, and its body contains `SSSSSSS`; it then raises ValueError; in every other case a text (or a
+strftime delegation) comes out – the `%`-formatting stage never fails. -/
+theorem rejected_iff_seven_S (spec : Str) (dt : Dt) :
+    ((∃ e, formatDt spec dt = .error e) ↔
+      (spec ≠ fastPathSpec ∧ '%' ∉ effectiveBody spec ∧ isInfix tooManyS (effectiveBody spec) = true)) ∧
+    (∀ e, formatDt spec dt = .error e → e = .valueError) := by
+  by_cases h0 : spec = fastPathSpec
+  · subst h0
+    obtain ⟨s, hs⟩ := fast_path_ok dt
+    rw [hs]
+    constructor
+    · constructor
+      · rintro ⟨e, he⟩; cases he
+      · rintro ⟨h, _⟩; exact absurd rfl h
+    · intro e he; cases he
+  · have hb : (spec == fastPathSpec) = false := by simpa using h0
+    unfold effectiveBody formatDt
+    simp only [hb]
+    generalize endsWith spec utcSuffix = u
+    generalize (if (if u = true then List.take (spec.length - 4) spec else spec).isEmpty = true then isoSpec
+      else if u = true then List.take (spec.length - 4) spec else spec) = s
+    by_cases hp : s.contains '%' = true
+    · have hp' : '%' ∈ s := by simpa using hp
+      simp only [hp, if_true]
+      constructor
+      · constructor
+        · rintro ⟨e, he⟩; cases he
+        · rintro ⟨_, h, _⟩; exact absurd hp' h
+      · intro e he; cases he
+    · have hp' : '%' ∉ s := by simpa using hp
+      by_cases h7 : isInfix tooManyS s = true
+      · simp only [hp, h7, if_true]
+        constructor
+        · constructor
+          · intro _; exact ⟨h0, hp', trivial⟩
+          · intro _; exact ⟨_, rfl⟩
+        · intro e he; cases he; rfl
+      · simp only [hp, h7]
+        rw [build_render _ (scan_pieces_clean s hp')]
+        constructor
+        · constructor
+          · rintro ⟨e, he⟩; cases he
+          · rintro ⟨_, _, h⟩; cases h
+        · intro e he; cases he
+
+/-- the keys of the token table -/
+def tableKeys : List Str := table.map (·.1)
+
+/-- bracket escapes: `[token]` renders the token's own text for EVERY token of the table, `[!UTC]` renders `!UTC`, `[]`
+renders nothing – at every instant -/
+theorem escapes_render_inner (dt : Dt) :
+    (∀ k ∈ tableKeys, formatDt ('[' :: k ++ [']']) dt = .ok (.text k)) ∧
+    formatDt "[!UTC]".toList dt = .ok (.text "!UTC".toList) ∧ formatDt "[]".toList dt = .ok (.text []) := by
+  have H : ∀ k ∈ tableKeys ++ ["!UTC".toList, []],
+      ('[' :: k ++ [']']) ≠ fastPathSpec ∧ endsWith ('[' :: k ++ [']']) utcSuffix = false ∧ '%' ∉ ('[' :: k ++ [']']) ∧
+      isInfix tooManyS ('[' :: k ++ [']']) = false ∧ scan ('[' :: k ++ [']']) = [.tok ('[' :: k ++ [']'])] ∧
+      lookup ('[' :: k ++ [']']) table = none ∧ (('[' :: k ++ [']']).drop 1).dropLast = k := by decide
+  have G : ∀ k ∈ tableKeys ++ ["!UTC".toList, []], formatDt ('[' :: k ++ [']']) dt = .ok (.text k) := by
+    intro k hk
+    obtain ⟨h0, h1, h2, h4, hs, hl, hi⟩ := H k hk
+    rw [format_generic _ dt h0 h1 h2 (by simp) h4]
+    simp only [renderBody, hs, List.flatMap_cons, List.flatMap_nil, renderPieceStr, hl, hi, List.append_nil]
+  refine ⟨fun k hk => G k (List.mem_append_left _ hk), ?_, ?_⟩
+  · exact G "!UTC".toList (by simp)
+  · exact G [] (by simp)
+
+theorem table_keys_distinct : (table.map (·.1)).Nodup := by decide
+
+/-- END-TO-END statement for every documented token alone: `format(dt, tok)` is the token's conversion applied to the
+token's kernel value at the instant's own fields (each spec consisting of one table key scans to exactly that token –
+`DDDD` is not read as `DD``DD` – and takes the generic path) -/
+theorem single_token_renders (dt : Dt) :
+    ∀ e ∈ table, formatDt e.1 dt = .ok (.text (fmtVal e.2.1 (e.2.2.eval (timetuple dt) dt))) := by
+  have H : ∀ k ∈ tableKeys, k ≠ fastPathSpec ∧ endsWith k utcSuffix = false ∧ '%' ∉ k ∧ k ≠ [] ∧
+      isInfix tooManyS k = false ∧ scan k = [.tok k] := by decide
+  intro e he
+  obtain ⟨h0, h1, h2, h3, h4, hs⟩ := H e.1 (List.mem_map.mpr ⟨e, he, rfl⟩)
+  rw [format_generic _ dt h0 h1 h2 h3 h4]
+  simp only [renderBody, hs, List.flatMap_cons, List.flatMap_nil, renderPieceStr,
+    lookup_of_mem_nodup table table_keys_distinct e he, List.append_nil]
+
+/-- the default format renders piece by piece like every other spec (fast path ≡ generic path ≡ piecewise spec) -/
+theorem default_format_piecewise (dt : Dt) :
+    formatDt fastPathSpec dt = .ok (.text (renderBody fastPathSpec dt)) := by
+  rw [default_fast_path_eq_generic, build_render _ (scan_pieces_clean _ (by decide))]
+  rfl
+
+/-- instance: the 12-hour token end to end -/
+example (dt : Dt) : formatDt "hh".toList dt = .ok (.text (fmtD0 2 (hour12 dt.hour))) := by
+  have h := single_token_renders dt ("hh".toList, "%02d".toList, .int k_hh) (by simp [table])
+  rw [h, show k_hh = fun t dt => hour12 t.tm_hour from funext fun t => funext fun dt => (token_hh t dt).1]
+  rfl
 
 /-! ### Round 5: `_format_timezone` / `_timestamp_microseconds` as the source has them NOW -/
 
@@ -387,14 +495,14 @@ theorem noninjective_key_leaks :
     runHistory key (fun _ c => c) [] [("HH".toList, dt), ("HH!UTC".toList, dt)]
       = [.ok (.text "01".toList), .ok (.text "01".toList)] ∧
     formatDt "HH!UTC".toList dt = .ok (.text "23".toList) := by
-  constructor <;> rfl
+  constructor <;> decide
 
 /-- non-vacuity: a concrete instant and spec exercising tokens, escapes and the UTC suffix -/
 example :
     formatDt "YYYY-MM-DD hh:mm A [YY] [at] Q ZZ!UTC".toList
       { year := 2024, month := 2, day := 29, hour := 1, minute := 30, second := 5, microsecond := 7,
         offsetUs := 7200000000, tzname := ['X'] } = .ok (.text "2024-02-28 11:30 PM YY [at] 1 +0000".toList) := by
-  rfl
+  decide
 
 /-- non-vacuity of `format_generic` / `format_utc_suffix` / `utc_suffix_converts`: a spec meeting their hypotheses, with
 literal text (brackets around a non-token stay), an escaped token and text that merely looks like the suffix in the middle; its piecewise rendering computed -/
@@ -405,7 +513,7 @@ example :
     body ≠ fastPathSpec ∧ endsWith body utcSuffix = false ∧ '%' ∉ body ∧ body ≠ [] ∧ isInfix tooManyS body = false ∧
     renderBody body dt = "29!UTC, [at] hh 01 é".toList ∧ renderBody body (toUtc dt) = "28!UTC, [at] hh 11 é".toList ∧
     formatDt (body ++ utcSuffix) dt = .ok (.text "28!UTC, [at] hh 11 é".toList) := by
-  refine ⟨by decide, by decide, by decide, by decide, by decide, by rfl, by rfl, by rfl⟩
+  refine ⟨by decide, by decide, by decide, by decide, by decide, by decide, by decide, by decide⟩
 
 /-- non-vacuity of `toUtc_same_instant`: the day changes, the instant does not -/
 example :
@@ -429,6 +537,6 @@ example :
     runHistory id (lruPolicy (some 1)) [] [("H Z".toList, d1), ("H Z".toList, d2), ("SSSSSSS".toList, d1),
         ("H Z!UTC".toList, d2), ("H Z".toList, d1), ("%H".toList, d1)]
       = [.ok (.text "1 +02:00".toList), .ok (.text "13 -01:00".toList), .error .valueError,
-         .ok (.text "14 +00:00".toList), .ok (.text "1 +02:00".toList), .ok (.strftime false "%H".toList)] := by rfl
+         .ok (.text "14 +00:00".toList), .ok (.text "1 +02:00".toList), .ok (.strftime false "%H".toList)] := by decide
 
 end C11
